@@ -160,7 +160,7 @@ def angles_law(out, r, p, y):
                   eq(a2[1][0], P.sin(y) * cp, "yaw numerator"), eq(a2[1][1], P.cos(y) * cp, "yaw denominator"))
 
 
-def axang(chk, prog):
+def axang(chk, prog, only_matrix=False):
     u = unit_vec("ax")
     t = P.sym("theta")
     P.set_angle_unit(t, Fraction(1, 2))
@@ -177,6 +177,17 @@ def axang(chk, prog):
                           eq(np.array([R()[2, 1] - R()[1, 2], R()[0, 2] - R()[2, 0], R()[1, 0] - R()[0, 1]], dtype=object), 2 * P.sin(t) * u, "antisymmetric part"),
                           eq(R().T @ R(), I(3), "R^T R")), construct="from_axisangle", **kw)
 
+    def free_axis():
+        v = sym_vec("axf", 3)
+        P.declare_positive(v[0] * v[0] + v[1] * v[1] + v[2] * v[2])
+        Rv = to_obj(Interp(prog).run(fa, [ClassRef(prog.cls(DCM + "::DCM")), v.copy(), t]))
+        n = P.sqrt(v[0] * v[0] + v[1] * v[1] + v[2] * v[2])
+        return all_of(eq(Rv.T @ Rv, I(3), "R^T R for a non-unit axis"),
+                      eq(np.array([Rv[2, 1] - Rv[1, 2], Rv[0, 2] - Rv[2, 0], Rv[1, 0] - Rv[0, 1]], dtype=object) * n, 2 * P.sin(t) * v, "antisymmetric part points along the given axis"))
+    chk.ob("AXANG.matrix", fa.ref + "::non-unit axis", "from_axisangle(k u, t) is the rotation about u for any non-zero axis length (orthogonal, axis direction kept)", free_axis,
+           construct="from_axisangle with a non-unit axis", **kw)
+    if only_matrix:
+        return
     from sa.lib import enumerate_paths
 
     def run_ta(oracle):
